@@ -395,6 +395,43 @@ def transform_fill_grid():
     return out
 
 
+REUSE_KINDS = {
+    "translate": (6, 0, 0, 6, 66, 62), "uniform": (3, 0, 0, 3, 72, 66), "nonuniform": (9, 0, 0, 4, 64, 72),
+    "mirror-x": (-6, 0, 0, 6, 70, 64), "mirror-y": (6, 0, 0, -6, 64, 70), "half-turn": (-6, 0, 0, -6, 70, 70),
+    "quarter": (0, 6, -6, 0, 70, 64), "rot30": (5.196152, 3.0, -3.0, 5.196152, 68, 66), "skew": (6, 0, 2, 6, 62, 66),
+}
+
+
+def reuse_fill_grid(solid_only=False):
+    """Every kind of reuse transform (translation, uniform / non-uniform scale, both mirrors, half and quarter turn,
+    a 30 degree rotation, a skew) x every kind of fill on the COPY, donor and copy in one glyph or in two.
+    -> [(label, glyphs)]"""
+    st = [(0.0, PALETTE[1], 1), (0.5, PALETTE[5], 0.6), (1.0, PALETTE[7], 1)]
+    fills = {"solid": FillSpec("solid", color=PALETTE[4], index=None)}
+    if not solid_only:
+        fills.update({
+            "linear-bbox": FillSpec("linear", stops=st, units="objectBoundingBox", spread="pad", gt=None, geom=(0.1, 0.2, 0.9, 0.7)),
+            "linear-user": FillSpec("linear", stops=st, units="userSpaceOnUse", spread="reflect", gt=None, geom=(0.0, 0.0, 1.0, 1.0)),
+            "radial-bbox": FillSpec("radial", stops=st, units="objectBoundingBox", spread="pad", gt=None, geom=(0.5, 0.5, 0.5), focal=None),
+            "radial-user-gt": FillSpec("radial", stops=st, units="userSpaceOnUse", spread="pad", gt="matrix(1 0 0 0.6 0 0)", geom=(0.5, 0.8, 0.6), focal=None),
+            "radial-focal": FillSpec("radial", stops=st, units="objectBoundingBox", spread="repeat", gt=None, geom=(0.5, 0.5, 0.4), focal=(0.4, 0.55, 0.05)),
+        })
+    donor_fill = FillSpec("solid", color=PALETTE[0], index=None)
+    out = []
+    n = 0
+    for kind, place in REUSE_KINDS.items():
+        for fname, fill in fills.items():
+            donor = LayerSpec("F", (6, 0, 0, 6, 28, 32), donor_fill, 1.0)
+            copy = LayerSpec("F", place, fill, 0.5 if n % 5 == 0 else 1.0)
+            if n % 2 == 0:
+                glyphs = [(CODEPOINTS[0], (0, 0, 100, 100), [donor, copy])]
+            else:
+                glyphs = [(CODEPOINTS[0], (0, 0, 100, 100), [donor]), (CODEPOINTS[1], (0, 0, 100, 100), [copy])]
+            out.append((f"{kind} x {fname}", glyphs))
+            n += 1
+    return out
+
+
 TINY_CONFIG = {"upem": 2048, "ascender": 1638, "descender": -410, "width": 2048}   # 20.48 units per viewBox unit
 
 
